@@ -11,9 +11,10 @@ ROOT = os.path.dirname(os.path.dirname(os.path.dirname(os.path.abspath(__file__)
 
 TY = {'usize': 'U8', 'Vec<u64>': 'L(U8)', 'Vec<bool>': 'L(B)', 'Vec<u32>': 'L(U4)', 'u8': 'U1', 'u16': 'U2', 'u32': 'U4', 'u64': 'U8', 'bool': 'B', 'Vec<u8>': 'L(U1)', 'Vec<u16>': 'L(U2)',
       'Vec<Vec<u8>>': 'L(L(U1))', 'Option<u16>': 'O(U2)', '[u8; 0]': 'X0',
-      'Wide': 'U4'}  # Wide: only as a skipped field or behind the wide4 module (its own codec is 8 bytes)
+      'Wide': 'U4',  # Wide: only as a skipped field or behind the wide4 module (its own codec is 8 bytes)
+      'Blob': 'L(U1)', 'VarNative': 'U4'}  # likewise: only skipped or behind blob_var / fix4
 WITH = {'leg_u16': ('Option<u16>', 'LO(U2)'), 'leg_vec_u16': ('Option<Vec<u16>>', 'LO(L(U2))'), 'plain_u32': ('u32', 'U4'),
-        'wide4': ('Wide', 'U4')}
+        'wide4': ('Wide', 'U4'), 'blob_var': ('Blob', 'L(U1)'), 'fix4': ('VarNative', 'U4')}
 
 def F(name, ty, flags='', with_=None, attrs=None):
     """flags: 's' skip_serializing, 'd' skip_deserializing"""
@@ -59,6 +60,16 @@ STRUCTS = [
     dict(name='S27', beh=None, kind='named', fields=[F('a', 'u8'), F('w', 'Wide', 's', 'wide4'), F('c', 'u16')]),
     dict(name='S28', beh=None, kind='named', fields=[F('v', 'Vec<u8>'), F('o', 'Option<u16>', 'd', 'leg_u16'), F('c', 'u16')]),
     dict(name='S29', beh=None, kind='named', fields=[F('v', 'Vec<u8>'), F('o', 'Option<u16>', 's', 'leg_u16'), F('c', 'u16')]),
+    # `with` and both skip flags on the same field: the field is absent, whatever its codec
+    dict(name='S33', beh=None, kind='named', fields=[F('a', 'u16'), F('w', 'Wide', 'sd', 'wide4'), F('b', 'Vec<u8>')]),
+    dict(name='S34', beh=None, kind='named', fields=[F('a', 'u8'), F('o', 'Option<u16>', 'sd', 'leg_u16'), F('c', 'u16')]),
+    dict(name='S35', beh=None, kind='named', fields=[F('w', 'Wide', 'sd', 'wide4')]),
+    # `with` modules whose size class differs from the field type's own impl: a variable-size codec over a type
+    # that is natively fixed-size, and a fixed-size codec over a natively variable-size type
+    dict(name='S36', beh=None, kind='named', fields=[F('a', 'u8'), F('b', 'Blob', '', 'blob_var'), F('c', 'u16')]),
+    dict(name='S37', beh=None, kind='named', fields=[F('b', 'Blob', '', 'blob_var')]),
+    dict(name='S38', beh=None, kind='named', fields=[F('a', 'u8'), F('x', 'VarNative', '', 'fix4'), F('c', 'u16')]),
+    dict(name='S39', beh=None, kind='named', fields=[F('x', 'VarNative', '', 'fix4'), F('b', 'Blob', '', 'blob_var'), F('v', 'Vec<u16>')]),
     # more than 8 and more than 16 fields (inline small-vector spill)
     dict(name='S30', beh=None, kind='named', fields=[F('f%d' % i, 'Vec<u8>' if i % 3 == 0 else 'u8') for i in range(17)]),
     dict(name='S17', beh=None, kind='named', fields=[F('a', 'u8'), F('b', 'Vec<u8>'), F('c', 'u16'), F('d', 'Vec<Vec<u8>>'), F('e', 'bool'), F('f', 'Vec<u16>')]),
@@ -74,6 +85,9 @@ STRUCTS = [
     # `with` on the wrapped field of a transparent struct (honoured since the fix: commit 29a8ce0)
     dict(name='T8', beh='transparent', kind='named', fields=[F('w', 'Wide', '', 'wide4')]),
     dict(name='T9', beh='transparent', kind='tuple', fields=[F('0', 'u8', 'sd'), F('1', 'Option<u16>', '', 'leg_u16')]),
+    dict(name='T10', beh='transparent', kind='named', fields=[F('b', 'Blob', '', 'blob_var')]),
+    dict(name='T11', beh='transparent', kind='tuple', fields=[F('0', 'VarNative', '', 'fix4')]),
+    dict(name='T12', beh='transparent', kind='named', fields=[F('s', 'u8', 'sd'), F('x', 'VarNative', '', 'fix4')]),
     dict(name='T7', beh='transparent', kind='named', fields=[F('x', 'u32', 'sd'), F('a', 'u16'), F('y', 'Vec<u8>', 'sd')]),
 ]
 GENERICS = [
@@ -154,7 +168,33 @@ def struct_impl(s):
     else:
         ctor = n + ' { ' + ', '.join(f"{f['name']}: <{f['ty']} as crate::model::Model>::gen(g, size)" for f in fs) + ' }'
     sym = all(('s' in f['flags']) == ('d' in f['flags']) for f in fs)
-    return f"""impl crate::derive::DModel for {n} {{
+    manual = ''
+    if s['kind'] == 'named' and s['beh'] in (None, 'container'):
+        live = [f for f in fs if 's' not in f['flags']]
+        terms, apps = [], []
+        for f in live:
+            if f['with_']:
+                m = f['with_']
+                terms.append(f"(if {m}::encode::is_ssz_fixed_len() {{ {m}::encode::ssz_fixed_len() }} else {{ ssz::BYTES_PER_LENGTH_OFFSET }})")
+                apps.append(f"enc.append_parameterized({m}::encode::is_ssz_fixed_len(), |b| {m}::encode::ssz_append(&self.{f['name']}, b));")
+            else:
+                t = f['ty']
+                terms.append(f"(if <{t} as ssz::Encode>::is_ssz_fixed_len() {{ <{t} as ssz::Encode>::ssz_fixed_len() }} else {{ ssz::BYTES_PER_LENGTH_OFFSET }})")
+                apps.append(f"enc.append(&self.{f['name']});")
+        manual = f"""
+    fn manual(&self) -> Option<Vec<u8>> {{
+        let mut buf: Vec<u8> = vec![0x5A, 0xC3];
+        let fixed: usize = 0{''.join(' + ' + t for t in terms)};
+        {{
+            #[allow(unused_mut)]
+            let mut enc = ssz::SszEncoder::container(&mut buf, fixed);
+            {' '.join(apps)}
+            enc.finalize();
+        }}
+        if buf[..2] != [0x5A, 0xC3] {{ return Some(vec![0xEE; 3]); }}
+        Some(buf[2..].to_vec())
+    }}"""
+    return f"""impl crate::derive::DModel for {n} {{{manual}
     fn name() -> &'static str {{ "{n}" }}
     fn def_desc() -> String {{ "{struct_desc(s)}".to_string() }}
     fn symmetric() -> bool {{ {str(sym).lower()} }}
@@ -198,7 +238,7 @@ def main():
 }}
 """)
         names.append(inst)
-    names += ['TagD', 'TagR', 'UnD', 'TrD']
+    names += ['TagD', 'TagR', 'UnD', 'TrD', 'SC<0>', 'SC<3>', 'SC<32>', 'GU<u8>', 'GU<u32>', 'GU<Vec<u16>>', 'GT<u8>', 'GT<u32>', 'GT<Vec<u16>>']
     calls = ' '.join(f"$f::<{n}>($ctx);" for n in names)
     out.append(f"#[macro_export]\nmacro_rules! for_each_derived {{ ($f:ident, $ctx:expr) => {{{{ use $crate::derive_gen::*; {calls} }}}}; }}\n")
     open(os.path.join(ROOT, 'harness/src/derive_gen.rs'), 'w').write('\n'.join(out))
@@ -326,6 +366,149 @@ pub mod wide4 {
         }
     }
 }
+
+/// natively FIXED-size (2 bytes: the length), encoded as a byte list by the `blob_var` module
+#[derive(Clone, PartialEq, Debug, Default)]
+pub struct Blob(pub Vec<u8>);
+impl ssz::Encode for Blob {
+    fn is_ssz_fixed_len() -> bool { true }
+    fn ssz_fixed_len() -> usize { 2 }
+    fn ssz_bytes_len(&self) -> usize { 2 }
+    fn ssz_append(&self, buf: &mut Vec<u8>) { buf.extend_from_slice(&(self.0.len() as u16).to_le_bytes()) }
+}
+impl ssz::Decode for Blob {
+    fn is_ssz_fixed_len() -> bool { true }
+    fn ssz_fixed_len() -> usize { 2 }
+    fn from_ssz_bytes(b: &[u8]) -> Result<Self, ssz::DecodeError> {
+        <u16 as ssz::Decode>::from_ssz_bytes(b).map(|n| Blob(vec![0; n as usize]))
+    }
+}
+impl crate::model::Model for Blob {
+    fn desc() -> String { "L(U1)".into() }
+    fn to_val(&self) -> String { crate::model::Model::to_val(&self.0) }
+    fn gen(g: &mut crate::rng::Rng, size: usize) -> Self { Blob(<Vec<u8> as crate::model::Model>::gen(g, size)) }
+}
+pub mod blob_var {
+    pub mod encode {
+        use super::super::Blob;
+        pub fn is_ssz_fixed_len() -> bool { false }
+        pub fn ssz_fixed_len() -> usize { ssz::BYTES_PER_LENGTH_OFFSET }
+        pub fn ssz_bytes_len(v: &Blob) -> usize { v.0.len() }
+        pub fn ssz_append(v: &Blob, buf: &mut Vec<u8>) { buf.extend_from_slice(&v.0) }
+    }
+    pub mod decode {
+        use super::super::Blob;
+        pub fn is_ssz_fixed_len() -> bool { false }
+        pub fn ssz_fixed_len() -> usize { ssz::BYTES_PER_LENGTH_OFFSET }
+        pub fn from_ssz_bytes(b: &[u8]) -> Result<Blob, ssz::DecodeError> { Ok(Blob(b.to_vec())) }
+    }
+}
+/// natively VARIABLE-size (its four bytes as a byte list), encoded as a fixed 4-byte integer by the `fix4` module
+#[derive(Clone, Copy, PartialEq, Debug, Default)]
+pub struct VarNative(pub u32);
+impl ssz::Encode for VarNative {
+    fn is_ssz_fixed_len() -> bool { false }
+    fn ssz_bytes_len(&self) -> usize { 4 }
+    fn ssz_append(&self, buf: &mut Vec<u8>) { buf.extend_from_slice(&self.0.to_be_bytes()) }
+}
+impl ssz::Decode for VarNative {
+    fn is_ssz_fixed_len() -> bool { false }
+    fn from_ssz_bytes(b: &[u8]) -> Result<Self, ssz::DecodeError> {
+        if b.len() != 4 { return Err(ssz::DecodeError::BytesInvalid("varnative".into())); }
+        Ok(VarNative(u32::from_be_bytes([b[0], b[1], b[2], b[3]])))
+    }
+}
+impl crate::model::Model for VarNative {
+    fn desc() -> String { "U4".into() }
+    fn to_val(&self) -> String { format!("{}", self.0) }
+    fn gen(g: &mut crate::rng::Rng, size: usize) -> Self { VarNative(<u32 as crate::model::Model>::gen(g, size)) }
+}
+pub mod fix4 {
+    pub mod encode {
+        use super::super::VarNative;
+        pub fn is_ssz_fixed_len() -> bool { true }
+        pub fn ssz_fixed_len() -> usize { 4 }
+        pub fn ssz_bytes_len(_v: &VarNative) -> usize { 4 }
+        pub fn ssz_append(v: &VarNative, buf: &mut Vec<u8>) { buf.extend_from_slice(&v.0.to_le_bytes()) }
+    }
+    pub mod decode {
+        use super::super::VarNative;
+        pub fn is_ssz_fixed_len() -> bool { true }
+        pub fn ssz_fixed_len() -> usize { 4 }
+        pub fn from_ssz_bytes(b: &[u8]) -> Result<VarNative, ssz::DecodeError> {
+            <u32 as ssz::Decode>::from_ssz_bytes(b).map(VarNative)
+        }
+    }
+}
+
+/// const-generic container, generic union, generic transparent wrapper: one definition, several instantiations
+#[derive(ssz_derive::Encode, ssz_derive::Decode, Clone, PartialEq, Debug)]
+pub struct SC<const N: usize> { pub a: [u8; N], pub v: Vec<u8>, pub t: u16 }
+#[derive(ssz_derive::Encode, ssz_derive::Decode, Clone, PartialEq, Debug)]
+#[ssz(enum_behaviour = "union")]
+pub enum GU<T: ssz::Encode + ssz::Decode> { A(T), B(Vec<T>) }
+#[derive(ssz_derive::Encode, ssz_derive::Decode, Clone, PartialEq, Debug)]
+#[ssz(struct_behaviour = "transparent")]
+pub struct GT<T: ssz::Encode + ssz::Decode>(pub T);
+macro_rules! sc_impl {
+    ($n:expr, $name:expr) => {
+        impl crate::derive::DModel for SC<$n> {
+            fn name() -> &'static str { $name }
+            fn def_desc() -> String { format!("DS--(n0:X{};n0:L(U1);n0:U2)", $n) }
+            fn symmetric() -> bool { true }
+            fn to_val_all(&self) -> String {
+                use crate::model::Model;
+                format!("({},{},{})", self.a.to_val(), self.v.to_val(), self.t.to_val())
+            }
+            fn gen(g: &mut crate::rng::Rng, size: usize) -> Self {
+                use crate::model::Model;
+                SC { a: <[u8; $n]>::gen(g, size), v: Vec::<u8>::gen(g, size), t: u16::gen(g, size) }
+            }
+        }
+    };
+}
+sc_impl!(0, "SC<0>");
+sc_impl!(3, "SC<3>");
+sc_impl!(32, "SC<32>");
+macro_rules! gu_impl {
+    ($t:ty, $name:expr) => {
+        impl crate::derive::DModel for GU<$t> {
+            fn name() -> &'static str { $name }
+            fn def_desc() -> String {
+                use crate::model::Model;
+                format!("DEu-(u:{}|u:L({}))", <$t>::desc(), <$t>::desc())
+            }
+            fn symmetric() -> bool { true }
+            fn to_val_all(&self) -> String {
+                use crate::model::Model;
+                match self { GU::A(x) => format!("U0({})", x.to_val()), GU::B(x) => format!("U1({})", x.to_val()) }
+            }
+            fn gen(g: &mut crate::rng::Rng, size: usize) -> Self {
+                use crate::model::Model;
+                if g.bool() { GU::A(<$t>::gen(g, size)) } else { GU::B(Vec::<$t>::gen(g, size)) }
+            }
+        }
+        impl crate::derive::DModel for GT<$t> {
+            fn name() -> &'static str { concat!("GT/", $name) }
+            fn def_desc() -> String {
+                use crate::model::Model;
+                format!("DSt-(u0:{})", <$t>::desc())
+            }
+            fn symmetric() -> bool { true }
+            fn to_val_all(&self) -> String {
+                use crate::model::Model;
+                format!("({})", self.0.to_val())
+            }
+            fn gen(g: &mut crate::rng::Rng, size: usize) -> Self {
+                use crate::model::Model;
+                GT(<$t>::gen(g, size))
+            }
+        }
+    };
+}
+gu_impl!(u8, "GU<u8>");
+gu_impl!(u32, "GU<u32>");
+gu_impl!(Vec<u16>, "GU<Vec<u16>>");
 
 /// enums whose Rust discriminants differ from the declaration order: selectors must still be the
 /// zero-based declaration index
